@@ -51,6 +51,7 @@ type structVM struct {
 	exprSelectorList           []string
 	ifaceTagExprGetters        []func(unsafe.Pointer, string, func(*TagExpr, error) error) error
 	err                        error
+	registering                bool
 }
 
 // fieldVM tag expression set of struct field
@@ -281,6 +282,7 @@ func (vm *VM) registerStructLocked(structType reflect.Type) (*structVM, error) {
 	}
 	s = vm.newStructVM()
 	s.name = structType.String()
+	s.registering = true
 	vm.structJar[tid] = s
 	numField := structType.NumField()
 	var structField reflect.StructField
@@ -326,6 +328,7 @@ func (vm *VM) registerStructLocked(structType reflect.Type) (*structVM, error) {
 			}
 		}
 	}
+	s.registering = false
 	return s, nil
 }
 
@@ -375,7 +378,8 @@ func (vm *VM) registerIndirectStructLocked(field *fieldVM) error {
 			if err != nil {
 				return err
 			}
-			if len(s.exprSelectorList) > 0 ||
+			if s.registering ||
+				len(s.exprSelectorList) > 0 ||
 				len(s.ifaceTagExprGetters) > 0 ||
 				len(s.fieldsWithIndirectStructVM) > 0 {
 				if i == 0 {
